@@ -231,6 +231,7 @@ def ROUNDUP(number, digits):
     if utils.any_is_error((number, digits)):
         return error.VALUE
     sign = 1 if number > 0 else -1
+    digits = max(-400, min(400, digits))  # beyond the range of a float nothing changes; 10**digits must stay computable
     return sign * (math.ceil(_exact(abs(number) * 10**digits))) / 10**digits
 
 
@@ -241,6 +242,7 @@ def ROUNDDOWN(number, digits):
     if utils.any_is_error((number, digits)):
         return error.VALUE
     sign = 1 if number > 0 else -1
+    digits = max(-400, min(400, digits))  # beyond the range of a float nothing changes; 10**digits must stay computable
     return sign * (math.floor(_exact(abs(number) * 10**digits))) / 10**digits
 
 
@@ -304,6 +306,8 @@ def POWER(number, power):
     power = utils.parse_number(power)
     if utils.any_is_error((number, power)):
         return error.VALUE
+    if isinstance(number, int) and isinstance(power, int) and abs(number) > 1 and abs(power) > 10000:
+        return error.NUM  # an exact integer of that size would take unbounded time and memory (Excel: #NUM!)
     result = number**power
     if math.isnan(result):
         return error.NUM
@@ -403,8 +407,8 @@ def BASE(value, base, places=DEFAULT):
         places = utils.parse_number(places)
         if isinstance(places, error.XLError):
             return places
-        if places < 0:
-            return error.NUM
+        if places < 0 or places > 255:
+            return error.NUM  # (Excel's limit; padding to an arbitrary length takes unbounded memory)
     if value < 0 or base < 2 or base > 36:
         return error.NUM  # also keeps the digit loop below from running forever
     value = int(value)
@@ -428,8 +432,8 @@ def FACT(number):
     number = utils.parse_number(number)
     if isinstance(number, error.XLError):
         return number
-    if number < 0:
-        return error.NUM
+    if number < 0 or number > 10000:
+        return error.NUM  # (Excel stops at 170; an exact factorial beyond this takes unbounded time)
     return math.factorial(int(number))
 
 
@@ -438,8 +442,8 @@ def FACTDOUBLE(number):
     number = utils.parse_number(number)
     if isinstance(number, error.XLError):
         return number
-    if number < 0:
-        return error.NUM
+    if number < 0 or number > 20000:
+        return error.NUM  # (an exact double factorial beyond this takes unbounded time)
     number = int(number)
     if number in (0, 1):
         return 1
